@@ -449,7 +449,6 @@ func shortTerm(v ssa.Value) string {
 	return t
 }
 
-
 // alignedTo: v is a multiple of k by construction: x - x%k, φ of aligned values, aligned ± k, constant multiple.
 func alignedTo(v ssa.Value, k uint64, depth int) bool {
 	if depth > 6 {
@@ -615,7 +614,6 @@ func decideArgs(p *Prog, s Site, aa, bb ssa.Value) bool {
 	return false
 }
 
-
 // structEq: structural equality of two SSA values that denote the same computation over identical leaves
 // (go/ssa performs no common-subexpression elimination, so `to+1` appears once per occurrence).
 func structEq(a, b ssa.Value, depth int) bool {
@@ -656,7 +654,6 @@ func structEq(a, b ssa.Value, depth int) bool {
 	}
 	return false
 }
-
 
 // definitelyNonNilErr: v is a freshly built error (fmt.Errorf / errors.New, or a concrete value boxed into the interface).
 func definitelyNonNilErr(v ssa.Value) bool {
